@@ -156,6 +156,7 @@ func genCaseHDL(t *rapid.T) Case {
 	c.Delays = nil
 	for i := range c.Consumers {
 		c.Consumers[i].Sicv3 = false // sicv3 consumers are judged in the simulator world only
+		c.Consumers[i].Finite = 0    // a program that ends halts the simulator and wraps in hardware
 	}
 	return c
 }
